@@ -15,8 +15,9 @@
 (*     pretty_dict, pretty_call_alt / build_fncall, python_to_sdocs.          *)
 (*                                                                         *)
 (* Domain of the model (anything else yields an "unmodelled" marker and the   *)
-(* case is skipped): no comments, no truncation (len <= max_seq_len), strings *)
-(* whose literal needs no escaping and that fit on their line.                *)
+(* case is skipped): no comments, no truncation (len <= max_seq_len), str and  *)
+(* bytes over printable ASCII and newline (split strings included: the       *)
+(* evaluator composes StrSplitFn!Lines with the four multiline strategies).  *)
 (*                                                                         *)
 (* Value terms are the ones of PyTerm with the repr text of number leaves     *)
 (* attached:  <<"int", digits, codes>>  <<"float", repr, codes>>              *)
@@ -60,8 +61,9 @@ NameOf(kind) ==
     [] kind = "set" -> <<115, 101, 116>>
     [] kind = "frozenset" -> <<102, 114, 111, 122, 101, 110, 115, 101, 116>>
 
-\* ctx = [indent, depth (-1 = unlimited), msl]
+\* ctx = [indent, depth (-1 = unlimited), msl, strat (multiline strategy for a str printed with this ctx)]
 Nested(ctx) == [ctx EXCEPT !.depth = IF @ = -1 THEN -1 ELSE @ - 1]
+Strat(ctx, st) == [ctx EXCEPT !.strat = st]
 DepthZero(ctx) == ctx.depth = 0
 DepthLeZero(ctx) == ctx.depth # -1 /\ ctx.depth <= 0
 
@@ -107,14 +109,14 @@ PV(v, ctx) ==
          ELSE IF v[2] \in {"inf", "-inf", "nan"}
               \* pretty_call_alt(ctx, float, args=('inf',)): a str argument, printed with the nested context
               THEN (IF DepthLeZero(ctx) THEN Placeholder("float")
-                    ELSE BuildFncall(ctx, Builtin(NameOf("float")), <<PV(<<"str", v[3]>>, Nested(ctx))>>, FALSE))
+                    ELSE BuildFncall(ctx, Builtin(NameOf("float")), <<PV(<<"str", v[3]>>, Strat(Nested(ctx), "hang"))>>, FALSE))
               ELSE Ann(NUMBER_FLOAT, Txt(v[3]))
     [] v[1] = "bool" -> Ann(KEYWORD_CONSTANT, Txt(IF v[2] = 1 THEN <<84, 114, 117, 101>> ELSE <<70, 97, 108, 115, 101>>))
     [] v[1] = "none" -> Ann(KEYWORD_CONSTANT, Txt(<<78, 111, 110, 101>>))
     [] v[1] = "ellipsis" -> ELLIPSIS
     [] v[1] \in {"str", "bytes"} ->
          IF DepthZero(ctx) THEN Placeholder(v[1])
-         ELSE IF IsSimpleStr(v[2]) THEN <<"pstr", v[2], v[1] = "bytes">> ELSE <<"unmodelled">>
+         ELSE <<"pstr", v[2], v[1] = "bytes", ctx.strat, ctx.indent>>
     [] v[1] \in {"list", "tuple", "set"} ->
          LET left == CASE v[1] = "list" -> LBRACKET [] v[1] = "tuple" -> LPAREN [] OTHER -> LBRACE
              right == CASE v[1] = "list" -> RBRACKET [] v[1] = "tuple" -> RPAREN [] OTHER -> RBRACE
@@ -126,7 +128,8 @@ PV(v, ctx) ==
                        ELSE Cat(<<left, right>>))
             ELSE IF DepthZero(ctx)
                  THEN (IF v[1] = "set" THEN Placeholder("set") ELSE Cat(<<left, ELLIPSIS, right>>))
-            ELSE SequenceOfDocs(ctx, left, PVSeq(v[2], Nested(ctx)), right, v[1] = "tuple" /\ Len(v[2]) = 1)
+            ELSE SequenceOfDocs(ctx, left, PVSeq(v[2], Strat(Nested(ctx), IF Len(v[2]) = 1 THEN "plain" ELSE "hang")),
+                                right, v[1] = "tuple" /\ Len(v[2]) = 1)
     [] v[1] = "frozenset" ->
          IF DepthLeZero(ctx) THEN Placeholder("frozenset")
          ELSE IF Len(v[2]) = 0 THEN Cat(<<Builtin(NameOf("frozenset")), LPAREN, RPAREN>>)
@@ -139,8 +142,8 @@ PV(v, ctx) ==
                   parts == [i \in 1..n |->
                               LET k == v[2][i][1]
                                   \* str/bytes keys are printed with the dict's own context
-                                  kdoc == IF k[1] \in {"str", "bytes"} THEN PV(k, ctx) ELSE PV(k, Nested(ctx))
-                                  vdoc == PV(v[2][i][2], Nested(ctx))
+                                  kdoc == IF k[1] \in {"str", "bytes"} THEN PV(k, Strat(ctx, "parens")) ELSE PV(k, Nested(ctx))
+                                  vdoc == PV(v[2][i][2], Strat(Nested(ctx), "indented"))
                               IN Cat(<<kdoc, Cat(<<COLON, Txt(<<32>>)>>), vdoc,
                                        IF i = n THEN NILT ELSE COMMA, IF i = n THEN NILT ELSE LINE>>)] \o <<>>
                   doc == Bracket(ctx, LBRACE, Cat(parts), RBRACE)
@@ -171,7 +174,7 @@ Unmodelled(out) == \E p \in 1..Len(out) : out[p].k = "unmodelled"
 
 \* pformat(value, indent, width, depth, ribbon_width, max_seq_len): <<modelled?, text>>
 Pformat(v, indent, width, depth, ribbon, msl) ==
-  LET doc == PV(v, [indent |-> indent, depth |-> depth, msl |-> msl])
+  LET doc == PV(v, [indent |-> indent, depth |-> depth, msl |-> msl, strat |-> "plain"])
       R == IF ribbon < width THEN ribbon ELSE width
       out == RunI(TRUE, width, R, InitI(doc))
   IN IF Unmodelled(out) THEN <<FALSE, <<>>>> ELSE <<TRUE, RenderOut(out, 1, LastTextIx(out, 1, 0), <<>>)>>
